@@ -886,6 +886,29 @@ pub fn events_for(v: &View, s: &StateSpec) -> Vec<Event> {
     add("DATA-empty(prim)", vec![wf::data(prim, &[], false)]);
     add("DATA-padded-255(prim)", vec![wf::data_padded(prim, &[], 255, false)]);
     add("DATA-pad-too-long(prim)", vec![RawFrame::new(wf::ty::DATA, wf::flag::PADDED, prim, vec![5, 1, 2, 3])]);
+    // every Pad Length around the end of a five-octet payload (pad field + marker + 3): 0..=3 legal, 4 = all the rest, >= 5 too long
+    for k in 0u8..=6 {
+        add(&format!("DATA-pad{}-of-5(prim)", k), vec![RawFrame::new(wf::ty::DATA, wf::flag::PADDED, prim, vec![k, 0xee, 0, 0, 0])]);
+    }
+    // HEADERS opening a new stream, padded, with priority: Pad Length around the end of the payload
+    {
+        let nid = v.next_peer_id();
+        if !server {
+            // (a client subject receives no request HEADERS; responses are covered by the prim variants above)
+        } else {
+            // three octets of padding: legal; a Pad Length that fits the payload but not what is left for the field block
+            // after the priority fields (RFC 9113 6.2: PROTOCOL_ERROR), by one octet and by all five
+            for (label, pad) in [("exact", 3usize), ("into-priority-by-1", head_block.len() + 3 + 1), ("into-priority-by-5", head_block.len() + 3 + 5)] {
+                if pad > 255 {
+                    continue;
+                }
+                let mut payload = vec![pad as u8, 0, 0, 0, 0, 15];
+                payload.extend(&head_block);
+                payload.extend([0u8; 3]);
+                add(&format!("HEADERS-padded-priority-{}(new)", label), vec![RawFrame::new(wf::ty::HEADERS, wf::flag::PADDED | wf::flag::PRIORITY | wf::flag::END_HEADERS | wf::flag::END_STREAM, nid, payload)]);
+            }
+        }
+    }
     add("DATA(0)", vec![wf::data(0, &MARK, false)]);
     add("DATA-over-stream-window(prim)", vec![wf::data(prim, &vec![0x11; 16384], false), wf::data(prim, &vec![0x11; 16384], false), wf::data(prim, &vec![0x11; 16384], false), wf::data(prim, &vec![0xee; 16384], false)]);
     add("DATA-unknown-flags(prim)", vec![RawFrame::new(wf::ty::DATA, 0x2 | 0x4 | 0x10 | 0x40, prim, MARK.to_vec())]);
@@ -930,6 +953,21 @@ pub fn events_for(v: &View, s: &StateSpec) -> Vec<Event> {
     add("WINDOW_UPDATE-0(0)", vec![wf::window_update(0, 0)]);
     add("WINDOW_UPDATE-overflow(0)", vec![wf::window_update(0, 0x7fff_ffff)]);
     add("WINDOW_UPDATE-overflow(prim)", vec![wf::window_update(prim, 0x7fff_ffff)]);
+    // exactly up to the maximum window (legal) and one octet beyond (overflow)
+    {
+        let room0 = 0x7fff_ffffi64 - v.conn_send_window;
+        if room0 > 0 && room0 < 0x7fff_ffff {
+            add("WINDOW_UPDATE-to-max(0)", vec![wf::window_update(0, room0 as u32)]);
+            add("WINDOW_UPDATE-to-max+1(0)", vec![wf::window_update(0, room0 as u32 + 1)]);
+        }
+        if let Some(sv) = v.streams.get(&prim) {
+            let room = 0x7fff_ffffi64 - (v.peer_iws + sv.peer_wu - sv.subj_flow);
+            if room > 0 && room < 0x7fff_ffff {
+                add("WINDOW_UPDATE-to-max(prim)", vec![wf::window_update(prim, room as u32)]);
+                add("WINDOW_UPDATE-to-max+1(prim)", vec![wf::window_update(prim, room as u32 + 1)]);
+            }
+        }
+    }
     add("WINDOW_UPDATE-len3(0)", vec![RawFrame::new(wf::ty::WINDOW_UPDATE, 0, 0, vec![0, 0, 1])]);
     add("WINDOW_UPDATE-reserved-bit(0)", vec![RawFrame::new(wf::ty::WINDOW_UPDATE, 0, 0, vec![0x80, 0, 0, 1])]);
     add("UNKNOWN-TYPE(0)", vec![RawFrame::new(0xfe, 0, 0, vec![0; 40])]);
@@ -1245,7 +1283,8 @@ pub fn run_chain(s: &StateSpec, prefix: &[String], ev_label: &str, verbose: bool
                 vios.push(("C09.legal-traffic-penalised".into(), key.clone(), format!("in state {} the frame(s) {} are permitted by RFC 9113, but the endpoint sent RST_STREAM({}, code {})", s.name, ev.label, rs, code)));
             }
             if *content && goaway.is_none() && rsts.is_empty() {
-                let is_data = ev.frames.iter().any(|f| f.ty == wf::ty::DATA && f.payload.iter().any(|&b| b == 0xee));
+                // (the marker must be in the data proper, not in the padding)
+                let is_data = ev.frames.iter().any(|f| matches!(f.parse(), Ok(Parsed::Data { ref data, .. }) if data.iter().any(|&b| b == 0xee)));
                 if is_data && marker.is_none() && ev.frames.len() == 1 {
                     vios.push(("C09.legal-content-lost".into(), key.clone(), format!("{} / {}: the DATA payload was not delivered to the application", s.name, ev.label)));
                 }
@@ -1325,6 +1364,10 @@ pub fn labels_after(s: &StateSpec, prefix: &[String]) -> Option<Vec<String>> {
     out
 }
 
+pub fn is_boundary_label(l: &str) -> bool {
+    l.contains("-pad") && l.contains("-of-5") || l.contains("to-max") || l.contains("padded-priority")
+}
+
 pub fn all_pairs() -> Vec<(StateSpec, String)> {
     let mut pairs = vec![];
     for s in states() {
@@ -1397,6 +1440,11 @@ pub fn run(ctx: &Ctx) -> Outcome {
             let mut local_obs = vec![];
             let mut local_next = vec![];
             for l in &labels {
+                // the boundary sweeps (Pad Length values, window exactly at / beyond its maximum) are judged alone and after
+                // one prefix event; behind two prefix events only the core catalogue runs in the quick tier
+                if ctx.tier.is_quick() && level >= 2 && is_boundary_label(l) {
+                    continue;
+                }
                 let mut last_class = String::new();
                 if let Some(r) = run_chain(s, prefix, l, false) {
                     last_class = r.class.clone();
@@ -1411,7 +1459,7 @@ pub fn run(ctx: &Ctx) -> Outcome {
                         }
                     }
                 }
-                if level < max_prefix && (last_class == "ok" || last_class == "stream") {
+                if level < max_prefix && (last_class == "ok" || last_class == "stream") && !(ctx.tier.is_quick() && is_boundary_label(l)) {
                     let mut p2 = prefix.clone();
                     p2.push(l.clone());
                     local_next.push((s.clone(), p2));
